@@ -298,6 +298,18 @@ func (c *regChild) observe() regStep {
 	return st
 }
 
+// regMarshalOthers marshals two other levels (names of other lengths) in both forms: a result handed out
+// earlier belongs to the caller and must not change under it.
+func regMarshalOthers(l slog.Level) {
+	defer func() { _ = recover() }()
+	for _, x := range []slog.Level{slog.WarnLevel, slog.OKLevel, slog.PanicLevel} {
+		if x != l {
+			_, _ = x.MarshalJSON()
+			_, _ = x.MarshalText()
+		}
+	}
+}
+
 func (c *regChild) observeLevel(l slog.Level) regLv {
 	o := regLv{L: int(l), Txt: []int{}, Js: []int{}, Jdec: []int{}, Tag: [][]int{}, Gate: []regGate{}, Dest: "none"}
 	// String and its way back
@@ -317,6 +329,7 @@ func (c *regChild) observeLevel(l slog.Level) regLv {
 		if err != nil {
 			return
 		}
+		regMarshalOthers(l) // the caller keeps b while other levels are marshalled
 		o.Txtok, o.Txt = true, cps(string(b))
 		l2 := slog.Level(regPANIC)
 		if err := (&l2).UnmarshalText(b); err == nil {
@@ -336,6 +349,7 @@ func (c *regChild) observeLevel(l slog.Level) regLv {
 		if err != nil {
 			return
 		}
+		regMarshalOthers(l) // the caller keeps b while other levels are marshalled
 		o.Jsok, o.Js = true, cps(string(b))
 		var dec string // independent decoder: what does this JSON text denote
 		if json.Unmarshal(b, &dec) == nil {
